@@ -121,3 +121,26 @@ def _build_sp_from_string(it, env, selfobj):
 
 
 _INITC[SPK + '__init__']['ctor_build'] = _build_sp_from_string
+
+
+# ----------------------------------------------------------------------------- C17.e: block swap (two disjoint blocks of equal length exchanged)
+def block_swapped(r, s, N):
+    """r is s with two disjoint stretches of the same length exchanged (possibly of length 0)"""
+    from pyvc.speclib import And, exists, forall, ite, length
+    return And(length(r) == N, exists(lambda a: exists(lambda b: exists(lambda L: And(
+        0 <= a, 0 <= L, a + L <= b, b + L <= N,
+        forall(lambda j: r[j] == ite(And(a <= j, j < a + L), lambda: s[b + (j - a)], lambda: ite(And(b <= j, j < b + L), lambda: s[a + (j - b)], lambda: s[j])), 0, N)),
+        0, N + 1), 0, N + 1), 0, N + 1))
+
+
+SPEC = dict(block_swapped=block_swapped)
+CONTRACT[K + 'permute_block_swap'] = dict(
+    self=mk_sequence(), params={'frozen': 'set[int]'}, requires=['self.len >= 4'],
+    raises=[], may_raise=[('SequenceException', 'True')], modifies=[], returns=new_sequence_obj,
+    ensures=['result.len == self.len', 'block_swapped(result.seq, self.seq, self.len)'] + CHILD_OK)
+LOOPS[K + 'permute_block_swap'] = {0: dict(
+    types={'new_delta': 'real', 'it': 'int', 'outseq': 'seqobj'},
+    invariant=['And(0 <= it, it <= 100)', 'Or(And(it == 0, new_delta == old_delta), And(it >= 1, outseq.len == self.len, block_swapped(outseq.seq, self.seq, self.len), '
+               'seq_inv(outseq), Or(outseq.dmax == -1, outseq.dmax == self.dmax)))'],
+    witness={1: ['min(blocks_to_swap[0])', 'min(blocks_to_swap[1])', 'max(blocks_to_swap[0]) - min(blocks_to_swap[0])']},
+    variant='(100 - it,)')}
